@@ -633,11 +633,11 @@ func main() {
 	}
 	// persistence: K failed attempts on one connection (counters, lock-outs and what they leave behind), then what a
 	// peer without the code can still send, and what a peer with the code sends
-	repeats := []int{3, 100}
-	fails := []string{"A-missing", "wrong-proof", "A=0"}
+	repeats := []int{1, 3, 100}
+	fails := []string{"A-missing", "wrong-proof", "A=0", "A=0+proof-over-empty-key", "A=N+proof-over-empty-key"}
 	if r.Thorough() {
-		repeats = []int{3, 10, 99, 100, 101, 255, 256, 300}
-		fails = []string{"A-missing", "wrong-proof", "A=0", "A=N", "proof-missing", "A-missing+proof-over-empty-key"}
+		repeats = []int{1, 2, 3, 10, 99, 100, 101, 255, 256, 300}
+		fails = []string{"A-missing", "wrong-proof", "A=0", "A=N", "proof-missing", "A-missing+proof-over-empty-key", "A=0+proof-over-empty-key", "A=N+proof-over-empty-key", "A=2N"}
 	}
 	tails := [][]symbol{
 		{{"exchange", "zero-key"}},
